@@ -40,7 +40,7 @@ REGISTRY["C03"] = dict(level="proof", theorems=T("C03", "C03_push_back", "C03_pu
                        oracles=[P.o_spec, P.o_leak, P.o_no_defect_panic])
 REGISTRY["C04"] = dict(level="proof", cross_oracles=[P.x_hash_layout_independent], theorems=T("C04", "C04_indep", "C04_push_back", "C04_push_front", "C04_pop_back", "C04_pop_front", "C04_remove", "C04_swap_remove_back", "C04_eq"), cases=P.cases_C04, projection=proj_physical,
                        oracles=[P.o_spec, P.o_ledger, P.o_views, P.o_no_defect_panic])
-REGISTRY["C05"] = dict(level="proof", theorems=T("C05", "C05_drop_range", "C05_truncate_back", "C05_truncate_front", "C05_clear", "C05_drain_drop", "C05_fill"), cases=P.cases_C05, projection=proj_behaviour,
+REGISTRY["C05"] = dict(level="proof", theorems=T("C05", "C05_drop_range", "C05_truncate_back", "C05_truncate_front", "C05_clear", "C05_drain_drop", "C05_fill", "C05_clone_from", "C05_from_array"), cases=P.cases_C05, projection=proj_behaviour,
                        oracles=[P.o_ledger, P.o_views, P.o_no_defect_panic])
 REGISTRY["C06"] = dict(level="proof", theorems=T("C06", "C06_clone_in_extend_from_slice", "C06_closure", "C06_iterator", "C06_eq_readonly", "C06_clone_in_fill_spare", "C06_clone_in_fill", "C06_clone_in_clone_from", "C06_clone_in_clone"), cases=P.cases_C06, projection=proj_behaviour,
                        oracles=[P.o_leak, P.o_views, P.o_no_defect_panic])
